@@ -334,6 +334,103 @@ func c01walk(c *Ctx) {
 		r.Check(found && len(reach.Returns()) == 0, "PATH", fkey(fn)+"/index-entry-added", c.Pos(fn.Pos()), "a live quota is always entered into the index", "a live quota can be added without being entered into the quota->tree index")
 	}
 
+	// ---- a delete releases what the event says, not what was remembered at add time
+	r.Rule("FLOW(delete uses the event's object): in Plugin.OnPodDelete the pod handed to handlePodDelete comes only from the type assertions on the event object (the pod itself or the tombstone's .Obj): the quota's pod cache holds the version seen at add time (updates are booked as deltas), so releasing by a cached version leaves the difference behind in used/request of the group and its ancestors")
+	if fn := c.Fn(quotaPluginPkg, "Plugin", "OnPodDelete"); fn != nil {
+		n := 0
+		for _, cl := range an.Calls(fn, false) {
+			if an.ShortCallee(cl.Common()) != "handlePodDelete" {
+				continue
+			}
+			n++
+			ok := true
+			why := ""
+			for _, s := range cellSources(cl.Common().Args[1]) {
+				switch x := s.(type) {
+				case *ssa.TypeAssert:
+				case *ssa.Extract:
+					if _, isTA := x.Tuple.(*ssa.TypeAssert); !isTA {
+						ok, why = false, an.Path(s)
+					}
+				case *ssa.Const:
+				default:
+					ok, why = false, an.Path(s)
+				}
+			}
+			r.Check(ok, "FLOW", fkey(fn)+"/releases-the-event-object", c.InstrPos(cl), "the released pod is the event's object", "the pod released on delete can be another object than the one the event carries ("+why+"): a remembered add-time version releases the wrong amounts")
+		}
+		r.Floor("FLOW", "handlePodDelete calls in OnPodDelete", n, 1)
+	}
+
+	// ---- the walks cannot be skipped on the strength of the amounts
+	r.Rule("WALK(entry): in updateGroupDeltaRequestNoLock, with a non-empty leaf-to-root path, recursiveUpdateGroupTreeWithDeltaRequest is reached on every path - also for a zero delta (the tree rebuild clears Request/ChildRequest and relies on this call to re-derive the min-raised request of groups without pods and hand it to the ancestors); in updateGroupDeltaUsedNoLock likewise the used walk")
+	for _, t := range []struct{ fn, sink string }{{"updateGroupDeltaRequestNoLock", "recursiveUpdateGroupTreeWithDeltaRequest"}, {"updateGroupDeltaUsedNoLock", "addUsedNonNegativeNoLock"}} {
+		fn := c.Fn(quotaCorePkg, "GroupQuotaManager", t.fn)
+		if fn == nil {
+			continue
+		}
+		f := an.Facts{}
+		for _, b := range fn.Blocks {
+			for _, in := range b.Instrs {
+				bo, ok := in.(*ssa.BinOp)
+				if !ok {
+					continue
+				}
+				isLen := false
+				for _, s := range cellSources(bo.X) {
+					if cl, isC := s.(*ssa.Call); isC && an.IsBuiltinCall(cl, "len") && strings.HasSuffix(cl.Call.Args[0].Type().String(), "QuotaInfo") {
+						isLen = true
+					}
+				}
+				if !isLen {
+					continue
+				}
+				if k, isC := constIntOf(bo.Y); isC && k == 0 {
+					switch bo.Op {
+					case token.LEQ, token.EQL:
+						f[bo] = an.False
+					case token.GTR, token.NEQ:
+						f[bo] = an.True
+					}
+				}
+				// the loop test i < len: the path is not empty, the first iteration runs (left to the explorer's counter folding)
+			}
+		}
+		found := false
+		want := t.sink
+		reach := an.Explore(fn, nil, f, func(in ssa.Instruction) bool {
+			if cl, ok := in.(ssa.CallInstruction); ok && an.ShortCallee(cl.Common()) == want {
+				found = true
+				return true
+			}
+			return false
+		})
+		escaped := false
+		for range reach.Returns() {
+			escaped = true
+		}
+		// the used walk sits in a loop whose test the explorer cannot decide: accept an exit only through that loop's header
+		if t.fn == "updateGroupDeltaUsedNoLock" && found {
+			escaped = false
+			r2 := an.Explore(fn, nil, f, func(in ssa.Instruction) bool {
+				if cl, ok := in.(ssa.CallInstruction); ok && an.ShortCallee(cl.Common()) == want {
+					return true
+				}
+				// stop at the loop test of the walk
+				if bo, ok := in.(*ssa.BinOp); ok && bo.Op == token.LSS {
+					if _, isPhi := bo.X.(*ssa.Phi); isPhi {
+						return true
+					}
+				}
+				return false
+			})
+			for range r2.Returns() {
+				escaped = true
+			}
+		}
+		r.Check(len(f) > 0 && found && !escaped, "WALK", fkey(fn)+"/not-skippable", c.Pos(fn.Pos()), "the walk runs for every non-empty path", "the walk can be skipped for a group with a non-empty path (an exit that depends on the amounts, e.g. 'nothing to propagate'): after a tree rebuild a non-lending group without pods keeps request {} instead of min, and its ancestors lose that share")
+	}
+
 	// ---- what may be replayed as a request / used delta
 	r.Rule("FLOW(no derived figure is replayed): no amount handed to updateGroupDeltaRequestNoLock derives from a load of CalculateInfo.Request (the min-raised, derived figure: replaying it books the raise as a child request that never goes away) and none handed to updateGroupDeltaUsedNoLock derives from a request figure; a 'children' share is Subtract(F, SelfF) with F the figure fed from below (ChildRequest / NonPreemptibleRequest / Used / NonPreemptibleUsed) and SelfF its own Self twin")
 	nReplay := 0
